@@ -128,7 +128,7 @@ func judgeC01(c ReqCase) *Fail {
 
 func genC01(t *rapid.T) ReqCase {
 	g := G{t}
-	o := GenOpts{MaxBiases: 3, ValueMode: -1, Superfluous: true, BiasLikeIds: true}
+	o := GenOpts{MaxBiases: 3, ValueMode: -1, Superfluous: true, BiasLikeIds: true, ValueScales: true}
 	switch g.Int(0, 9) {
 	case 0, 1, 2, 3: // tie-heavy majority (the narrow shape of the self-link defect)
 		o.Methods = []string{"majorityHeuristic"}
